@@ -51,6 +51,11 @@ pub fn flow_models<C: StateCheck + Copy>(ctx: &Ctx, shared: &Arc<Shared>, c: C, 
     };
     explore(ctx, "VOCAB: every (service, carrier) pair / cogeneration fuel / production source added to a small building, depth<=2", Wide { alphabet: alpha::vocab_letters(), bases: alpha::vocab_base(), max_add: if ctx.quick() { 1 } else { 2 }, repeat: false }, c, shared.clone());
     explore(ctx, "TINY: values around the absolute thresholds of the code (1e-3, 0.01 kWh), depth<=3", Wide { alphabet: alpha::tiny_letters(), bases: alpha::bases(false), max_add: if ctx.quick() { 3 } else { 4 }, repeat: false }, c, shared.clone());
+    {
+        // quick: 12 slots (4 096 buildings) for oracles that cost milliseconds, 14 (16 384) otherwise; thorough: all 16 (65 536)
+        let n = if ctx.quick() { if spec.heavy_oracle { 12 } else { 14 } } else { 16 };
+        explore(ctx, &format!("COMBO: complete 12-step buildings, {n} subsystems absent/present (designed production/use ratios, ties, five-digit values)"), Layered { slots: alpha::combo_slots(n), bases: alpha::bases(false) }, c, shared.clone());
+    }
     explore(ctx, "LONG: complete buildings with 13, 24, 31, 52, 365 and 8760 steps", Wide { alphabet: vec![], bases: alpha::long_bases(), max_add: 0, repeat: false }, c, shared.clone());
     if ctx.quick() && spec.heavy_oracle && spec.quick_depth >= 3 {
         // oracles that cost milliseconds per state: full vector set one level less deep, reduced vector set at full depth
